@@ -21,6 +21,7 @@ VERIF = os.path.dirname(os.path.dirname(os.path.abspath(__file__)))
 
 
 class Configurations(Unit):
+    native_timeout = 0  # runs long by design (own budgets / child processes): no per-call alarm
     name = "bindings/configurations"
     properties = ("C19",)
     level = "bounded"
